@@ -444,6 +444,20 @@ func ruleSpanConsecutive(c *Ctx, fn *ssa.Function, lhs, rhs *ssa.Parameter) {
 			if len(gap.at) == 0 && gap.k == 0 {
 				return true, ""
 			}
+			// positions kept in memory (a table of offsets computed beforehand) are beyond this rule: what a slot
+			// holds is not a value the path determines — not judged
+			for n := range gap.at {
+				switch x := atomVal[n].(type) {
+				case *ssa.UnOp:
+					if x.Op == token.MUL {
+						if _, isIdx := x.X.(*ssa.IndexAddr); isIdx {
+							return true, ""
+						}
+					}
+				case *ssa.Index, *ssa.Lookup:
+					return true, ""
+				}
+			}
 			s := signsOf(facts, gap)
 			if s == 2 {
 				return true, "" // the path's conditions say the difference is exactly 0
